@@ -381,8 +381,7 @@ def gen_prio1_scenario(rng, tier, style=None, fault=False, stop=None):
     all_chans = [ch for _, ch in cfg]
     open_chans = set(all_chans)
     union = set(ps0)
-    H = rng.choice([1, 2, 3, 4, 6, 8, 12, 20])
-    ocap = rng.choice([1, 2, 4, max(H // 2, 1)])
+    H = 20
     ops = []
     nput = 0
     nops = rng.choice([10, 25, 40]) if tier == "quick" else rng.choice([30, 60, 100])
@@ -419,6 +418,12 @@ def gen_prio1_scenario(rng, tier, style=None, fault=False, stop=None):
             ch = rng.choice(sorted(open_chans))
             open_chans.discard(ch)
             ops.append((2, ch, 0, True))
+    # v1 has no constructor check: with a zero share a priority starves (known finding, see known_findings.json); keep H
+    # large enough for every subset of the priorities that may be registered
+    from .props.c18 import ref_nonfatal
+    good = [h for h in [1, 2, 3, 4, 6, 8, 12, 20, 40, 80, 200] if not union or ref_nonfatal(sorted(union), kind, h)]
+    H = rng.choice(good[:4]) if good else 200
+    ocap = rng.choice([1, 2, 4, max(H // 2, 1)])
     if fault:
         ops.insert(rng.randrange(0, len(ops) + 1), (rng.choice([5, 5, 7]), rng.choice([1, 2, -1, H]), 0, True))
     if stop:
@@ -477,3 +482,215 @@ class Prio1Trace:
             self.ops.append((tp, tx, olen, pend, done, consumed, snap, calls))
         self.done, self.err = v[pos], v[pos + 1]
         self.ambiguous = len(v) > pos + 2 and v[pos + 2] == 1
+
+
+# ------------------------------------------------------------------------------------ v1 views and monitors
+def replay_driver1(meta, tr):
+    held, view = [], []
+    put_chan = {}                 # item -> channel
+    per_chan = {}                 # channel -> [items in put order]
+    nxt = 1
+    closed = set()
+    reg = dict((p, ch) for p, ch in meta["cfg"])      # priority -> channel, as far as the driver knows
+    consumed_prev = {}
+    read_at = {}                  # item -> op index at which the discipline took it from its channel
+    queue = []
+    uncertain = False
+    done_prev = False
+    for i, ((code, a, b, stl), o) in enumerate(zip(meta["ops"], tr.ops)):
+        tp, tx, olen, pend, done, consumed, snap, calls = o
+        taken = None
+        reg_before = dict(reg)
+        if code == 1 and a not in closed:
+            put_chan[nxt] = a
+            per_chan.setdefault(a, []).append(nxt)
+            nxt += 1
+        elif code == 2:
+            closed.add(a)
+        elif code == 3 and (tp, tx) != (0, 0):
+            taken = (tp, tx)
+            held.append(tp)
+        elif code == 4 and held:
+            held.pop(a % len(held))
+        elif code == 8 and not done_prev:
+            queue.append(("add", b, a))
+        elif code == 9 and not done_prev:
+            queue.append(("rmv", a, None))
+        # commands the loop has taken during this operation (the API calls have returned): FIFO while at most one is pending
+        ntaken = len(queue) - (0 if done else pend)
+        if done:
+            # calls still waiting when the discipline terminates panic; whether they were taken just before is unknown
+            if queue:
+                uncertain = True
+            ntaken = 0
+        if len(queue) >= 2 and 0 < ntaken < len(queue):
+            uncertain = True
+        for _ in range(max(0, min(ntaken, len(queue)))):
+            kindc, pp, chh = queue.pop(0)
+            if kindc == "add":
+                reg[pp] = chh
+            else:
+                reg.pop(pp, None)
+        if done:
+            queue = []
+        for ch, cnt in consumed:
+            for k in range(consumed_prev.get(ch, 0), cnt):
+                items = per_chan.get(ch, [])
+                if k < len(items):
+                    read_at[items[k]] = i
+            consumed_prev[ch] = cnt
+        view.append({"held": list(held), "olen": olen, "taken": taken, "pend": pend, "done": done, "consumed": dict(consumed),
+                     "snap": snap, "calls": calls, "reg_before": reg_before, "reg_after": dict(reg), "closed": set(closed),
+                     "code": code, "a": a, "b": b, "uncertain": uncertain, "queued": len(queue)})
+        done_prev = bool(done)
+    return view, put_chan, per_chan, read_at
+
+
+def prio1_project(kind):
+    def project(sc, vals):
+        tr = Prio1Trace(vals, len(sc.meta["ops"]))
+        if tr.error is not None:
+            return ["error", tr.error]
+        if getattr(tr, "ambiguous", False) or any(o[3] >= 2 for o in tr.ops):
+            return SKIP
+        allbuf = all(ch < 1000 for _, ch in sc.meta["cfg"]) and all(o[1] < 1000 for o in sc.meta["ops"] if o[0] == 8)
+        ops = tr.ops
+        if kind == "C01":
+            return ["inflight", [(o[2], o[6]) for o in ops]]
+        if kind == "C02":
+            return ["delivered", [(o[0], o[1]) for o in ops if (o[0], o[1]) != (0, 0)], [o[5] for o in ops]]
+        if kind == "C07":
+            return ["termination", [o[4] for o in ops], tr.done, tr.err]
+        if kind == "C15":
+            return ["calls", [sorted(o[7]) for o in ops] if allbuf else None, tr.done, tr.err, [(o[0], o[1]) for o in ops if (o[0], o[1]) != (0, 0)]]
+        if kind == "C16":
+            return ["stop", [(o[0], o[1]) for o in ops if (o[0], o[1]) != (0, 0)], [o[4] for o in ops], [o[2] for o in ops], tr.done, tr.err]
+        if kind == "C17":
+            return ["inputs", [(o[0], o[1]) for o in ops if (o[0], o[1]) != (0, 0)], [o[3] for o in ops], [o[5] for o in ops], [o[6] for o in ops]]
+        return ["full", [o[:7] for o in ops], tr.done, tr.err]
+    return project
+
+
+def monitor_prio1(kind):
+    def monitor(sc, ir):
+        if ir.verdict != "ok":
+            what = "implementation verdict %s %s" % (ir.verdict, ir.raw[-300:].replace("\n", " "))
+            if ir.verdict == "hang" and sc.meta.get("stop"):
+                what = "Stop()/cancel did not complete: the harness hung (wall-clock watchdog) " + what
+            return [(what, None)]
+        m = sc.meta
+        tr = Prio1Trace(ir.vals, len(m["ops"]))
+        H = m["H"]
+        key = "prio1:%s:%d:%s:%s" % (m["divider"], H, m["cfg"], m["style"])
+        if tr.error is not None:
+            return [] if (H == 0 and tr.error == 2) else [("constructor returned error code %s" % tr.error, key)]
+        view, put_chan, per_chan, read_at = replay_driver1(m, tr)
+        fails = []
+        delivered = [v["taken"] for v in view if v["taken"]]
+        extra = tr.extra or [0, 0, 0, 0, 0, 0]
+        stopped_at = next((i for i, v in enumerate(view) if v["code"] in (11, 12)), None)
+        if tr.noterm:
+            fails.append("the discipline did not terminate even after its context was cancelled")
+        if kind in ("C01", "C17", "C15"):
+            worst = max([len(v["held"]) + v["olen"] for v in view] + [extra[0]])
+            if worst > H:
+                fails.append("%d items handed out and not released, HandlersQuantity is %d" % (worst, H))
+        if kind in ("C02", "C17", "C16"):
+            seen = set()
+            last_of_chan = {}
+            for (p, x) in delivered:
+                if x in seen:
+                    fails.append("item %d delivered twice" % x)
+                seen.add(x)
+                ch = put_chan.get(x)
+                if ch is None:
+                    fails.append("item %d delivered but never written" % x)
+                    continue
+                if last_of_chan.get(ch, 0) > x:
+                    fails.append("items of channel %d delivered out of order" % ch)
+                last_of_chan[ch] = max(last_of_chan.get(ch, 0), x)
+                i = read_at.get(x)
+                if i is not None and not view[i]["uncertain"]:
+                    ok_tags = {q for q, c in view[i]["reg_after"].items() if c == ch}
+                    if view[i]["queued"] or view[i]["code"] in (8, 9):
+                        ok_tags |= {q for q, c in view[i]["reg_before"].items() if c == ch}
+                    if ok_tags and p not in ok_tags:
+                        fails.append("item %d of channel %d delivered tagged %d, the channel was registered under %s" % (x, ch, p, sorted(ok_tags)))
+        if kind == "C17":
+            # a channel that is not registered under any priority is never read
+            for i in range(1, len(view)):
+                if view[i - 1]["queued"] or view[i]["queued"] or view[i]["uncertain"] or view[i]["code"] in (8, 9):
+                    continue
+                registered = set(view[i - 1]["reg_after"].values()) | set(view[i]["reg_after"].values())
+                for ch, cnt in view[i]["consumed"].items():
+                    if ch not in registered and cnt > view[i - 1]["consumed"].get(ch, 0):
+                        fails.append("op %d: channel %d is read although it is not registered (RemoveInput had returned)" % (i, ch))
+            # AddInput / RemoveInput return once the loop has taken the command (unless the discipline is blocked)
+            for i, v in enumerate(view):
+                for row in v["snap"]:
+                    if row[0] not in set(v["reg_after"]) | set(v["reg_before"]) and row[1] == 0 and not v["queued"] and not v["uncertain"] and not v["done"] and False:
+                        fails.append("op %d: priority %d is still configured after RemoveInput returned" % (i, row[0]))
+        if kind in ("C02", "C07", "C17") and not m["stop"] and not m["fault"]:
+            if tr.done == 1:
+                gi = next((i for i, v in enumerate(view) if v["done"]), len(view) - 1)
+                v = view[gi]
+                for p, ch in ([] if v["uncertain"] else v["reg_after"].items()):
+                    if ch not in v["closed"]:
+                        fails.append("GracefulStop completed while the input of priority %d is still open" % p)
+                    elif v["consumed"].get(ch, 0) != len(per_chan.get(ch, [])):
+                        fails.append("GracefulStop completed with %d of %d items of channel %d read" % (v["consumed"].get(ch, 0), len(per_chan.get(ch, [])), ch))
+                if v["held"] and kind == "C07":
+                    fails.append("GracefulStop completed while %d delivered items are unreleased" % len(v["held"]))
+                nread = sum(v["consumed"].values())
+                got = len([t for t in view[:gi + 1] if t["taken"]]) + v["olen"]
+                if nread != got:
+                    fails.append("%d items were read from the inputs but %d were delivered by graceful termination" % (nread, got))
+                if tr.err != 0:
+                    fails.append("Err() yielded error code %d in normal mode" % tr.err)
+            elif kind == "C07":
+                fails.append("GracefulStop did not complete although every input was closed and emptied and every item released")
+        if kind == "C16" and m["stop"]:
+            if tr.done != 1:
+                fails.append("%s did not take effect: the discipline has not terminated" % m["stop"])
+            if m["stop"] == "stop" and not extra[3]:
+                fails.append("Stop() has not returned")
+            if extra[5]:
+                fails.append("%d writes to the output after the discipline had terminated" % extra[5])
+            if stopped_at is not None:
+                after = view[stopped_at]
+                for v in view[stopped_at + 1:]:
+                    if v["olen"] + len([t for t in view[:view.index(v) + 1] if t["taken"]]) > after["olen"] + len([t for t in view[:stopped_at + 1] if t["taken"]]):
+                        fails.append("an item was written to the output after Stop()/cancel had completed")
+                        break
+        if kind == "C15":
+            if extra[1]:
+                fails.append("divider called with arguments violating its contract (%d calls)" % extra[1])
+            for v in view:
+                for (d, cps) in v["calls"]:
+                    if d > H:
+                        fails.append("divider called with dividend %d > HandlersQuantity %d" % (d, H))
+            if m["fault"]:
+                delta = next(a for (c, a, b, s_) in m["ops"] if c in (5, 7))
+                if extra[2] == 1 and delta > 0 and tr.done == 1 and tr.err not in (1, 2) and not m["stop"]:
+                    fails.append("a division over-allocating by %d was made but no error was reported (err=%d)" % (delta, tr.err))
+        return [("%s [%s H=%d inputs=%s style=%s ops=%d]" % (f, m["divider"], H, m["cfg"], m["style"], len(m["ops"])), key) for f in fails[:3]]
+    return monitor
+
+
+def prio1_generate(fault_share=0.0, stop_share=0.0, styles=None):
+    def generate(rng, tier):
+        n = 120 if tier == "quick" else 2500
+        out = []
+        for _ in range(n):
+            stop = rng.choice(["stop", "cancel"]) if rng.random() < stop_share else None
+            out.append(gen_prio1_scenario(rng, tier, style=rng.choice(styles) if styles else None,
+                                          fault=(rng.random() < fault_share and not stop), stop=stop))
+        return out
+    return generate
+
+
+PRIO1_RULE = ("v1 driver scripts in a synctest bubble: 0..3 initial inputs (buffered / unbuffered channels with identities), H 1..20, user output "
+              "capacity 1..H/2, Fair/Rate; operations put (also into removed channels), close, take, release, AddInput (new channel, new or "
+              "already registered priority, re-add), RemoveInput, optional divider fault, optional Stop()/cancel at a random position, otherwise "
+              "GracefulStop finale; every operation is followed by a settle; scenarios in which the model sees a select with several ready "
+              "alternatives (or two pending commands) are monitored but not compared")
